@@ -239,6 +239,9 @@ def run_unit(unit, ctx):
                     "week_start": list(c.cal_from_dn(c.week_year_start(2005))),
                     "week_year_add": [list(c.add_years("week", (2001, 52, 2), 1)), list(c.add_years("week", (2004, 52, 7), -2)),
                                       list(c.add_years("week", (2000, 51, 1), 5))],
+                    "validate_truncated": [max(c.leap) >= 31, max(c.leap) >= 30, c.len_leap >= 366, c.len_leap >= 361,
+                                           max(c.weeks_in_year(y) for y in range(1990, 2030)) >= 53,
+                                           max(c.weeks_in_year(y) for y in range(1990, 2030)) >= 52],
                     "nominal_lengths": [[c.len_common, 0], (c.len_common + 30) * 86400, c.len_common > 361, c.len_common <= 360,
                                         c.len_common < 366],
                 }
